@@ -31,7 +31,7 @@ def synth_path(rng):
             def sel():
                 if rng.random() < 0.5:
                     return slice(rng.choice([None, 0, 1]), rng.choice([None, 2, -1]), rng.choice([None, 1, 2]))
-                return ilist.IList([rng.randrange(4) for _ in range(rng.randrange(1, 3))])
+                return ilist.IList([rng.randrange(4) for _ in range(rng.randrange(0, 3))])
             out.append(c(sel(), sel()))
     return out
 
@@ -48,7 +48,10 @@ def run(ctx):
                 paths.append((c.as_case(), c.path))
     else:
         n_prog = 600 if ctx.tier == "thorough" else 80
-        for c in T.random_traces(ctx, spec, n_prog):
+        corpus = []
+        for c in T.CORPUS:
+            corpus += T.trace_program(ctx, spec, traps, c["kernels"], [c["args"]])
+        for c in corpus + T.random_traces(ctx, spec, n_prog):
             if c.path is not None:
                 paths.append((c.as_case(), c.path))
         for i in range(3000 if ctx.tier == "thorough" else 400):
